@@ -152,17 +152,15 @@ CLAIMED = {
    technique="Coq state-machine invariants by induction over event histories; API run with independent key derivation and MAC check",
    ref="5 C13"),
  "C18": dict(
-   text="PARTIAL, with a KNOWN FINDING for the sync client (known_findings.json: SO_RCVTIMEO re-armed by every skipped datagram).  Coq "
-        "theorems over the logical-clock model Model/Timing.v: C18_async_deadline (the async client returns by its single deadline for every "
-        "arrival schedule), C18_async_delivers (a matching reply arriving by the deadline after only non-matching datagrams is delivered), "
-        "C18_sync_refuted (for every k there is a schedule of k strays that keeps the sync call waiting (k+1) timeouts), "
-        "C18_sync_without_strays (the sync client keeps its deadline when no stray arrives), C18_sync_bound.  72 wall-clock schedules "
-        "(k = 0..4 strays 0.4 T apart, reply absent / early / late; v1, v2c, v3; sync, async) against the real clients, bound T + 0.2 s, "
-        "suspected violations re-run twice; an async overrun or a wrong outcome is a fresh violation.",
-   note="Partial by nature: the model has a logical clock; scheduler latency, kernel timer granularity and GIL hand-over are only measured. "
-        "The sync defect is recorded, not repaired (a per-call deadline must shorten and restore SO_RCVTIMEO on every exit path of the hot "
-        "receive loop). No axioms.",
-   technique="Coq theorems over a logical-clock model of both wait loops (incl. refutation witness family); wall-clock API schedules",
+   text="PARTIAL (logical clock).  Coq theorems over Model/Timing.v: C18_sync_deadline / C18_async_deadline (for every arrival schedule the "
+        "call returns by t0 + T), C18_delivers (a matching reply arriving by the deadline after only non-matching datagrams is delivered, both "
+        "clients), C18_with_strays, and C18_pinned_refuted (the receive loop of the pinned commit re-armed its timeout on every skipped "
+        "datagram: for every k a schedule of k strays kept the call waiting (k+1) timeouts - repaired by a fix: commit).  72 wall-clock "
+        "schedules (k = 0..4 strays 0.4 T apart, reply absent / early / late; v1, v2c, v3; sync, async) against the real clients, bound "
+        "T + 0.2 s, suspected violations re-run twice.",
+   note="Partial by nature: the model has a logical clock; scheduler latency, kernel timer granularity and GIL hand-over are only measured "
+        "(slack 0.2 s). The correspondence between the timing model and the code is the wall-clock run. No axioms.",
+   technique="Coq theorems over a logical-clock model of the wait loops; wall-clock API schedules",
    ref="5 C18"),
 }
 
